@@ -17,7 +17,9 @@ static void op_Ecdh(const jv *in, jout *out) {
     jo_int(out, "pret", pret);
     if (!pret) return;
     memset(res, 0xAA, 64);
-    ret = secp256k1_ecdh(CTX, res, &pk, scalar, vh_ecdh_fn(h), NULL);
+    /* "alias": 1 = the shared secret overwrites the caller's secret-key buffer (32-byte outputs only) */
+    if (jv_int(in, "alias", 0) && h != 3) { ret = secp256k1_ecdh(CTX, scalar, &pk, scalar, vh_ecdh_fn(h), NULL); memcpy(res, scalar, 32); }
+    else ret = secp256k1_ecdh(CTX, res, &pk, scalar, vh_ecdh_fn(h), NULL);
     jo_int(out, "ret", ret);
     if (ret) jo_bytes(out, "out", res, h == 3 ? 64 : 32);
 }
